@@ -377,6 +377,19 @@ def nsf (c impl : List String) : Option Verdict := do
            else if ans != 1 then "a valid solicitation after the ignored message was not answered"
            else "" }
 
+/-- `mwr lat at | answered`: a solicitation from `::` arrives while a scheduled multicast RA is inside
+    its (slow) transmission: that RA left before the solicitation arrived, so another multicast RA must
+    begin within MIN_DELAY_BETWEEN_RAS of it (C06's second clause; C07: the solicitation becomes a request) -/
+def mwr (_c impl : List String) : Option Verdict :=
+  pure { model := "1", oracle := impl == ["1"], nontrivial := true,
+         note := if impl == ["1"] then "" else "a solicitation from the unspecified address that arrived while a multicast RA was being transmitted was not answered by a multicast RA begun within MIN_DELAY_BETWEEN_RAS of it" }
+
+/-- `bfw lat | lifetime`: forwarding is switched off while one solicited RA is inside its transmission;
+    the answer to a solicitation that arrives afterwards carries router lifetime 0 (C04) -/
+def bfw (_c impl : List String) : Option Verdict :=
+  pure { model := "0", oracle := impl == ["0"], nontrivial := true,
+         note := if impl == ["0"] then "" else "an RA solicited after forwarding was switched off does not carry router lifetime 0 (it was not built from the state of its own moment), or was not sent" }
+
 /-- `flap monitor tf k | dials oldUse served`: the link drops at `tf` and again during each of the
     next `k` dials (the notification is queued before the new incarnation watches the channel).
     Every link-state change tears the task down and the interface is re-established (C10):
